@@ -61,6 +61,8 @@ type DeliverFlags struct {
 	ReplyPath              bool
 	UDHIndicator           bool
 	StatusReportIndication bool
+	TPUDHI                 bool // bit 6, TP-User-Data-Header-Indicator (GSM 03.40 9.2.2.1)
+	TPRP                   bool // bit 7, TP-Reply-Path
 }
 
 func (p *DeliverFlags) setDirection(direction Direction) {
